@@ -10,6 +10,10 @@
     S <node> <checked> <stateRaw> <stateType>
     T <period> <inside>
     L | <ok|cycle|other>
+    A <id> <child> <parent> <group|-> <filter> <ignoreSoft> <period|-1> <disChecks> <disNotif> | <ok|cycle|other> <deps per node> reg=<k>
+    R <depid> | <ok|other>
+    G | <groups of node 0>;<groups of node 1>;…;reg=<k>
+    E <reason>          (harness ended the case; accepted only after a refused runtime batch)
     Q <closedbits|-> | <abc:deps:groups per node> reg=<k>
   Output lines:
     MISMATCH line=<n> case=<k> what=<query|load> impl=<…> model=<…>
@@ -20,6 +24,7 @@
 import IcingaModel.Common.Proto
 import IcingaModel.C07.Model
 import IcingaModel.C07.Spec
+import IcingaModel.C07.Registry
 import Std.Data.HashSet
 
 open Icinga Icinga.C07 Icinga.Proto
@@ -29,6 +34,14 @@ structure DSt where
   nodes : Array Node := #[]
   live : List (Nat × Dep) := []         -- ascending dependency id
   pending : List (Nat × Dep) := []      -- cfg mode: D lines since the last L
+  rst : RState := {}                    -- the registry model, driven op by op
+  caseLoads : Nat := 0                  -- successful L lines in this case
+  refusedLater : Bool := false          -- a runtime batch/addition was refused in this case
+  skipRest : Bool := false              -- harness ended the case (E line); ignore up to the next C
+  groupsCmp : Nat := 0
+  rtAdds : Nat := 0
+  rtRefused : Nat := 0
+  rtDeletes : Nat := 0
   caseNo : Nat := 0
   caseFailed : Bool := false
   caseNontrivial : Bool := false
@@ -123,7 +136,33 @@ def parseDep (ws : List String) (nn : Nat) : Option (Nat × Dep) :=
                      period := if per < 0 then none else some per.toNat })
   | _ => none
 
+def ldep (x : Nat × Dep) : LDep := { id := x.1, d := x.2 }
+
+def showCKey (ck : CKey) : String :=
+  let per := match ck.2.1 with | none => "-1" | some p => toString p
+  s!"{ck.1}.{per}.{ck.2.2.1}.{if ck.2.2.2 then 1 else 0}"
+
+def sortStrings (l : List String) : List String := (l.toArray.qsort (· < ·)).toList
+def sortNats (l : List Nat) : List Nat := (l.toArray.qsort (· < ·)).toList
+
+/-- the `G` observation computed from the registry model. -/
+def modelGroups (st : RState) (nn : Nat) : String :=
+  let perNode := (List.range nn).map (fun v =>
+    let gs := (st.cmap.filter (fun e => e.1.1 == v)).map (fun e =>
+      let k := e.1.2
+      let i := e.2
+      let name := if i.1 == "" then "-" else i.1
+      let keys := ",".intercalate ((i.2.foldr insertKey []).map showCKey)
+      let own := ",".intercalate ((sortNats ((viewDeps st v k).map (·.id))).map toString)
+      let total := (membersOf st.registry i).length
+      s!"{name}/{keys}/{own}/{total}")
+    if gs.isEmpty then "0" else "+".intercalate (sortStrings gs))
+  ";".intercalate (perNode ++ [s!"reg={st.registry.length}"])
+
+def addAll (st : RState) (xs : List (Nat × Dep)) : RState := xs.foldl (fun s x => addDep s (ldep x)) st
+
 def handle (d : DSt) (n : Nat) (line : String) : IO DSt := do
+  if d.skipRest && !line.startsWith "C " then return d
   let ws := words line
   let bad : IO DSt := do IO.println s!"BADLINE line={n}"; return d
   match ws with
@@ -132,7 +171,8 @@ def handle (d : DSt) (n : Nat) (line : String) : IO DSt := do
     let d := closeCase d
     if mode != "obj" && mode != "cfg" then bad else
     return { d with cfgMode := mode == "cfg", nodes := #[], live := [], pending := [], caseNo := d.caseNo + 1,
-                    caseFailed := false, caseNontrivial := false, caseHash := hash mode }
+                    caseFailed := false, caseNontrivial := false, caseHash := hash mode, rst := {}, caseLoads := 0,
+                    refusedLater := false, skipRest := false }
   | ["N", id, kind, host] =>
     match parseNat? id, parseInt? host with
     | some id, some host =>
@@ -152,14 +192,17 @@ def handle (d : DSt) (n : Nat) (line : String) : IO DSt := do
     | some (id, dep) =>
       if (d.live ++ d.pending).any (fun x => x.1 == id) then bad
       else if d.cfgMode then return bump { d with pending := insertSorted (id, dep) d.pending } line
-      else return bump { d with live := insertSorted (id, dep) d.live, adds := d.adds + 1 } line
+      else return bump { d with live := insertSorted (id, dep) d.live, adds := d.adds + 1,
+                                rst := addDep d.rst (ldep (id, dep)) } line
     | none => bad
   | ["X", id] =>
     match parseNat? id with
     | some id =>
-      if d.live.any (fun x => x.1 == id) then
-        return bump { d with live := d.live.filter (fun x => x.1 != id), removes := d.removes + 1 } line
-      else bad
+      match d.live.find? (fun x => x.1 == id) with
+      | some x =>
+        return bump { d with live := d.live.filter (fun x => x.1 != id), removes := d.removes + 1,
+                             rst := removeDep d.rst (ldep x) } line
+      | none => if d.refusedLater then return { d with skipRest := true } else bad
     | none => bad
   | ["S", v, chk, raw, ty] =>
     match parseNat? v, parseBool? chk, parseNat? raw, parseBool? ty with
@@ -192,10 +235,78 @@ def handle (d : DSt) (n : Nat) (line : String) : IO DSt := do
         d := { d with specfails := d.specfails + 1, caseFailed := true }
       | none => pure ()
       if io == "ok" then
+        -- first load: pending path (PushDependencyGroupsToRegistry); later batches: runtime AddDependency
+        let rst' := if d.caseLoads == 0 then
+            pushAll (d.pending.map ldep) d.rst ((d.pending.map (fun x => (x.2.child, x.2.key))).eraseDups)
+          else addAll d.rst d.pending
         return { d with live := d.pending.foldl (fun acc x => insertSorted x acc) d.live, pending := [],
-                        loadsOk := d.loadsOk + 1, adds := d.adds + (if d.loadsOk > 0 then new.length else 0) }
+                        loadsOk := d.loadsOk + 1, adds := d.adds + (if d.caseLoads > 0 then new.length else 0),
+                        rst := rst', caseLoads := d.caseLoads + 1 }
       else
-        return markNontrivial { d with pending := [], loadsCycle := d.loadsCycle + (if io == "cycle" then 1 else 0) }
+        return markNontrivial { d with pending := [], loadsCycle := d.loadsCycle + (if io == "cycle" then 1 else 0),
+                                       refusedLater := d.caseLoads > 0, skipRest := d.caseLoads == 0 }
+    | _ => bad
+  | "E" :: _ => if d.refusedLater then return { d with skipRest := true } else bad
+  | "A" :: rest =>
+    let (pre, post) := splitBar rest
+    match parseDep pre d.nodes.size, post with
+    | some (id, dep), io :: obs =>
+      if (d.live ++ d.pending).any (fun x => x.1 == id) || d.caseLoads == 0 || !d.pending.isEmpty then bad else
+      let nn := d.nodes.size
+      let g := mkGraph d.nodes (d.live.map (·.2))
+      let (g', acc) := runtimeAdd g [dep] nn
+      let mo := if acc then "ok" else match cycleCheck g [dep] nn with | .fuelOut => "fuelout" | _ => "cycle"
+      let mut d := bump d (line.takeWhile (· != '|')).toString
+      d := { d with rtAdds := d.rtAdds + 1 }
+      let rst' := if acc then addDep d.rst (ldep (id, dep)) else d.rst
+      let mcounts := (List.range nn).map (fun v => toString (depsOf g' v).length) ++ [s!"reg={rst'.registry.length}"]
+      let mline := " ".intercalate (mo :: mcounts)
+      let iline := " ".intercalate (io :: obs)
+      if mline != iline then
+        IO.println s!"MISMATCH line={n} case={d.caseNo} what=runtime-add impl={iline.replace " " ","} model={mline.replace " " ","}"
+        d := { d with mismatches := d.mismatches + 1 }
+      let counts := (obs.filter (fun w => !w.startsWith "reg=")).map String.toNat?
+      if counts.any Option.isNone || counts.length != nn then
+        IO.println s!"BADLINE line={n}"; return d
+      let carr := (counts.filterMap (fun o => o)).toArray
+      match specRuntimeAdd nn g [dep] (io == "ok") (fun v => carr[v]?.getD 0) with
+      | some cl =>
+        if !d.caseFailed then IO.println s!"SPECFAIL line={n} case={d.caseNo} clause={cl.name}"
+        d := { d with specfails := d.specfails + 1, caseFailed := true }
+      | none => pure ()
+      if io == "ok" then
+        -- follow the implementation
+        return { d with live := insertSorted (id, dep) d.live, rst := addDep d.rst (ldep (id, dep)), adds := d.adds + 1 }
+      else
+        return markNontrivial { d with refusedLater := true, rtRefused := d.rtRefused + 1 }
+    | _, _ => bad
+  | "R" :: rest =>
+    let (pre, post) := splitBar rest
+    match pre, post with
+    | [id], [io] =>
+      match parseNat? id with
+      | some id =>
+        match d.live.find? (fun x => x.1 == id) with
+        | some x =>
+          let mut d := bump d (line.takeWhile (· != '|')).toString
+          if io != "ok" then
+            IO.println s!"MISMATCH line={n} case={d.caseNo} what=runtime-delete impl={io} model=ok"
+            return { d with mismatches := d.mismatches + 1 }
+          return { d with live := d.live.filter (fun y => y.1 != id), removes := d.removes + 1,
+                          rtDeletes := d.rtDeletes + 1, rst := removeDep d.rst (ldep x) }
+        | none => bad
+      | none => bad
+    | _, _ => bad
+  | "G" :: rest =>
+    let (_, post) := splitBar rest
+    match post with
+    | [io] =>
+      let mo := modelGroups d.rst d.nodes.size
+      let mut d := { d with groupsCmp := d.groupsCmp + 1 }
+      if mo != io then
+        IO.println s!"MISMATCH line={n} case={d.caseNo} what=groups impl={io} model={mo}"
+        d := { d with mismatches := d.mismatches + 1 }
+      return d
     | _ => bad
   | "Q" :: rest =>
     let (pre, post) := splitBar rest
@@ -217,7 +328,8 @@ def handle (d : DSt) (n : Nat) (line : String) : IO DSt := do
         d := { d with queries := d.queries + 1, evals := d.evals + 3 * nn }
         -- model
         let mtoks := (List.range nn).map (modelNodeObs g)
-        let mreg := s!"reg={registrySize g (List.range nn)}"
+        let mregN := registrySize g (List.range nn)
+        let mreg := if mregN == d.rst.registry.length then s!"reg={mregN}" else s!"reg={mregN}|{d.rst.registry.length}"
         let mline := " ".intercalate (mtoks ++ [mreg])
         let iline := " ".intercalate (nodeToks ++ regTok)
         if mline != iline then
@@ -254,4 +366,4 @@ def main : IO Unit := do
   let stdin ← IO.getStdin
   let d ← foldLines stdin handle ({} : DSt)
   let d := closeCase d
-  IO.println s!"STATS cases={d.caseNo} queries={d.queries} evaluations={d.evals} unreachable_bits={d.bits0} reachable_bits={d.bits1} spec_queries={d.specQ} spec_skipped={d.specSkipped} loads_ok={d.loadsOk} loads_cycle={d.loadsCycle} adds={d.adds} removes={d.removes} state_sets={d.sets} max_depth={d.maxDepth} nontrivial={d.nontrivial} mismatches={d.mismatches} specfails={d.specfails}"
+  IO.println s!"STATS cases={d.caseNo} queries={d.queries} evaluations={d.evals} unreachable_bits={d.bits0} reachable_bits={d.bits1} spec_queries={d.specQ} spec_skipped={d.specSkipped} loads_ok={d.loadsOk} loads_cycle={d.loadsCycle} adds={d.adds} removes={d.removes} state_sets={d.sets} max_depth={d.maxDepth} groups_compared={d.groupsCmp} runtime_adds={d.rtAdds} runtime_refused={d.rtRefused} runtime_deletes={d.rtDeletes} nontrivial={d.nontrivial} mismatches={d.mismatches} specfails={d.specfails}"
